@@ -193,6 +193,16 @@ func (w *c01world) mutations(s *c01state) []*c01state {
 		v := m.v
 		mk("repo:"+m.d, func(c *c01state) { c.Repo = v })
 	}
+	rv := repoVariants(s.Repo)
+	rk := make([]string, 0, len(rv))
+	for d := range rv {
+		rk = append(rk, d)
+	}
+	sort.Strings(rk)
+	for _, d := range rk {
+		v := rv[d]
+		mk("repo:"+d, func(c *c01state) { c.Repo = v })
+	}
 	mk("repo:empty", func(c *c01state) { c.Repo = "" })
 	// record
 	for _, alg := range []string{"EdDSA", "ES512", "PS512", "ES256", "HS512", "none", "", "eddsa"} {
